@@ -8,7 +8,7 @@
    of batches -- no row beyond the position, no position without its rows. *)
 From Coq Require Import List NArith Bool.
 From Shovel Require Import Model.TaskTypes Model.TaskDb Model.Task Model.TaskNode Model.TaskSys
-  Model.TaskSpec Model.TaskWitness Proofs.TaskLegacyP Proofs.C02P Proofs.TaskLiveP.
+  Model.TaskSpec Model.TaskWitness Proofs.TaskLegacyP Proofs.C02P Proofs.TaskLiveP Proofs.TaskPruneP.
 Import ListNotations.
 Open Scope N_scope.
 
@@ -76,6 +76,30 @@ Theorem retry_equiv : forall c ch,
   pv c (hstepf c ch d') = pv c (hstepf c ch d) /\ outside c (hstepf c ch d') = outside c (hstepf c ch d).
 Proof. exact retry_lemma. Qed.
 Print Assumptions retry_equiv.
+
+(* PruneTask (cmd/shovel runs it with n = 200): [prune n] keeps, per pair, the
+   n newest cursor rows (Model/TaskDb.v).  It touches no table row, keeps the
+   newest cursor (n >= 1), leaves of a pair satisfying TaskInv exactly the
+   cursors of its last n batches, and the observable part of TaskInv survives:
+   no row beyond the position, no position without its rows, rows = projection
+   of the indexed blocks.  (What is lost is the ability to unwind further back
+   than the retained batches: C03's "retained position history".) *)
+Theorem prune_preserves_observable_inv : forall n c d, (1 <= n)%nat -> TaskInv c d ->
+  newest (t_src c) (t_ig c) (d_curs (prune n d)) = newest (t_src c) (t_ig c) (d_curs d)
+  /\ d_rows (prune n d) = d_rows d
+  /\ i1b c (prune n d) = true
+  /\ exists g, wf_ghost c g
+       /\ d_rows (pv c (prune n d)) = rows_of c (concat g)
+       /\ d_curs (pv c (prune n d)) = map (bcur c) (skipn (length g - n) g).
+Proof. exact prune_inv. Qed.
+Print Assumptions prune_preserves_observable_inv.
+
+(* for every pair in any state: a cursor that no cursor of its pair is newer
+   than is never deleted *)
+Theorem prune_keeps_newest : forall n d x, (1 <= n)%nat -> In x (d_curs d) ->
+  newer_count x (d_curs d) = 0%nat -> In x (d_curs (prune n d)).
+Proof. exact prune_keeps_max. Qed.
+Print Assumptions prune_keeps_newest.
 
 (* TaskInv implies the directly observable I1: no row beyond the newest cursor *)
 Theorem inv_no_row_beyond_position : forall c d, TaskInv c d -> i1b c d = true.
